@@ -92,8 +92,8 @@ Assignable(c, db) == FinalBits(c, db) <= FinalBits(c, c.maxdb) /\ Steps(c, db) <
 \* (maxdb - sum of arities) + i * a
 ActiveIndex(c, i) == (IF Mutant = "step_index_zero" THEN 0 ELSE c.maxdb - c.a * SMax(c)) + i * c.a
 StepActive(c, i, db) == ActiveIndex(c, i) < db
-V1(c) == \A db \in c.mindb..c.maxdb : Assignable(c, db) =>
-            \A i \in 0..(SMax(c) - 1) : StepActive(c, i, db) <=> i < Steps(c, db)
+V1at(c, db) == \A i \in 0..(SMax(c) - 1) : StepActive(c, i, db) <=> i < Steps(c, db)
+V1(c) == \A db \in c.mindb..c.maxdb : Assignable(c, db) => V1at(c, db)
 
 \* verify_merkle_proof_to_cap_with_cap_indices: `final_states` is a shift register over the digests after
 \* k siblings (k = 0 the leaf hash); entry n_index = db - mindb is compared with the cap.
@@ -107,8 +107,8 @@ SelectedSiblings(c, db, j) ==
   LET num == c.maxdb - c.mindb + 1
       reg == RegRun([n \in 0..(num - 1) |-> 0], num, 1, MaxSiblings(c, j))
   IN reg[IF Mutant = "path_len_not_tied" THEN num - 1 ELSE db - c.mindb]
-V3(c) == \A db \in c.mindb..c.maxdb : Assignable(c, db) =>
-            \A j \in 0..Steps(c, db) : SelectedSiblings(c, db, j) = NativeSiblings(c, db, j)
+V3at(c, db) == \A j \in 0..Steps(c, db) : SelectedSiblings(c, db, j) = NativeSiblings(c, db, j)
+V3(c) == \A db \in c.mindb..c.maxdb : Assignable(c, db) => V3at(c, db)
 
 \* the FRI part of the transcript as a sequence of value classes: prover (fri/prover.rs), native verifier
 \* (fri/challenges.rs with the circuit's parameters) and circuit (static program over targets that
@@ -134,21 +134,20 @@ CircuitFri(c, db) ==
   \o [i \in 1..Pow2(FinalBits(c, c.maxdb)) |-> IF i <= Pow2(FinalBits(c, db)) THEN "O:coeff" ELSE "O:zero"]
   \o <<"O:pow", "S", "S">>
 \* a zero cap / zero coefficient is absorbed as zeros: the classes "O:zerocap"/"O:zero" stand for those values
-V4(c) == \A db \in c.mindb..c.maxdb : Assignable(c, db) =>
-            ProverFri(c, db) = NativeFri(c, db) /\ NativeFri(c, db) = CircuitFri(c, db)
+V4at(c, db) == ProverFri(c, db) = NativeFri(c, db) /\ NativeFri(c, db) = CircuitFri(c, db)
+V4(c) == \A db \in c.mindb..c.maxdb : Assignable(c, db) => V4at(c, db)
 
 UnsupportedOf(c) == {db \in c.mindb..c.maxdb : ~Assignable(c, db)}
 \* printed for the replay: configurations small enough to build circuits for, with the lengths that cannot be
 \* assigned (final polynomial longer than the circuit's): there the native verifier accepts and nothing is asserted
 Small == {c \in VarCfgs : c.maxdb <= 8 /\ c.maxdb - c.mindb >= 3 /\ SMax(c) >= 2 /\ c.f <= 3 /\ c.a >= 2}
-ASSUME IsVar /\ Mutant = "none" => PrintT("VARCFGS " \o ToJson({[cfg |-> c, unsupported |-> UnsupportedOf(c), steps |-> [d \in c.mindb..c.maxdb |-> Steps(c, d)]] : c \in Small}))
+ASSUME Instance = "vararith" /\ Mutant = "none" => PrintT("VARCFGS " \o ToJson({[cfg |-> c, unsupported |-> UnsupportedOf(c), steps |-> [d \in c.mindb..c.maxdb |-> Steps(c, d)]] : c \in Small}))
 
-ASSUME IsVar => \A c \in VarCfgs : V1(c)
-ASSUME IsVar => \A c \in VarCfgs : V3(c)
-ASSUME IsVar => \A c \in {x \in VarCfgs : FinalBits(x, x.maxdb) <= 4} : V4(c)
+\* checked over the whole lattice by the instance "vararith" (one state per configuration and degree, invariant
+\* VarOK below); the check-list instance "starkvar" needs them for its own configuration VC only
 \* the mode is not vacuous, and the lengths that cannot be assigned are exactly the ones whose final
 \* polynomial is longer than the circuit's (they are printed for the replay: native accepts, no assignment)
-ASSUME IsVar => \E c \in VarCfgs : \E db \in c.mindb..(c.maxdb - 1) : Assignable(c, db) /\ Steps(c, db) < SMax(c)
+ASSUME Instance = "vararith" /\ Mutant = "none" => \E c \in VarCfgs : \E db \in c.mindb..(c.maxdb - 1) : Assignable(c, db) /\ Steps(c, db) < SMax(c)
 
 ----------------------------------------------------------------------------
 (* Part 2: value-level refinements (W-bit words standing for the 64-bit field) *)
@@ -192,8 +191,9 @@ Openings == {S(OpeningNames[i]) : i \in 1..Len(OpeningNames)}
 \* the configuration of the check-list part of the variable-degree instance (DESIGN C11: rate 1, cap 4,
 \* ConstantArityBits(2, 3), verifier degree 8): two layers at most, like NL
 VC == [rate |-> 1, cap |-> 4, a |-> 2, f |-> 3, maxdb |-> 8, mindb |-> 4]
-ASSUME IsVar => VC \in VarCfgs /\ SMax(VC) = NL
-Dbs == IF IsVar THEN {db \in VC.mindb..VC.maxdb : Assignable(VC, db)} ELSE {0}
+ASSUME IsVar => VC \in VarCfgs /\ SMax(VC) = NL /\ V1(VC) /\ V3(VC) /\ V4(VC)
+IsArith == Instance = "vararith"
+Dbs == IF IsVar THEN {db \in VC.mindb..VC.maxdb : Assignable(VC, db)} ELSE IF IsArith THEN 2..10 ELSE {0}
 Layers(db) == IF IsVar THEN 0..(Steps(VC, db) - 1) ELSE Ls
 
 NoComp == [k |-> "-", r |-> 0, i |-> 0]
@@ -289,18 +289,22 @@ AdaptiveClasses(n) ==
 Classes(db) == StaticClasses \cup VdClasses \cup AdaptiveClasses(Cardinality(Layers(db)))
 
 ----------------------------------------------------------------------------
-VARIABLES adv, db, pc, nacc, first, maybeFirst
-vars == <<adv, db, pc, nacc, first, maybeFirst>>
+VARIABLES adv, db, vc, T, pc, nacc, first, maybeFirst
+vars == <<adv, db, vc, T, pc, nacc, first, maybeFirst>>
 
-\* position of the first squeeze of ch / of the absorption of component c in schedule s (0 = never)
-PosS(s, ch) == LET P == {i \in 1..Len(s) : s[i].k = "S" /\ s[i].ch = ch} IN IF P = {} THEN 0 ELSE CHOOSE i \in P : \A j \in P : i <= j
-PosO(s, c) == LET P == {i \in 1..Len(s) : s[i].k = "O" /\ s[i].c = c} IN IF P = {} THEN 0 ELSE CHOOSE i \in P : \A j \in P : i <= j
-Rerand(s, a, ch) == a.kind = "static" /\ PosO(s, a.touched) > 0 /\ PosO(s, a.touched) < PosS(s, ch)
-\* does check k of a verifier with schedule s fail for class a: "yes" | "maybe" | "no"
-Outcome(s, a, k) ==
+\* <<component, challenge>> pairs of a schedule: the component is absorbed before the challenge is squeezed
+RerPairs(s) == {<<s[i].c, s[j].ch>> : i \in {x \in 1..Len(s) : s[x].k = "O"}, j \in {y \in 1..Len(s) : s[y].k = "S"}}
+Before(s) == {p \in RerPairs(s) : \E i \in 1..Len(s) : \E j \in (i + 1)..Len(s) : s[i].k = "O" /\ s[i].c = p[1] /\ s[j].k = "S" /\ s[j].ch = p[2]}
+\* everything that depends only on the degree is computed once per behaviour and carried in the state
+\* (TLC re-evaluates definitions at every use)
+Tables(d) == [nrer |-> Before(NativeSchedule(d)), crer |-> Before(CircuitSchedule(d)),
+              nc |-> NativeChecks(d), cc |-> CircuitChecks(d), fs3 |-> NativeSchedule(d) = CircuitSchedule(d)]
+
+\* does check k of a verifier (rer = the absorbed-before relation of its schedule) fail for class a: "yes" | "maybe" | "no"
+Outcome(rer, a, k) ==
   IF \/ a.kind = "static" /\ a.touched \in k.reads
      \/ a.kind = "static" /\ a.touched \in k.reads1 /\ ~a.partial
-     \/ \E ch \in k.chals : Rerand(s, a, ch)
+     \/ a.kind = "static" /\ \E ch \in k.chals : <<a.touched, ch>> \in rer
      \/ a.kind = "adaptive" /\ k.id \in a.breaks
   THEN "yes"
   ELSE IF \/ a.kind = "static" /\ a.touched \in k.reads1 /\ a.partial
@@ -309,42 +313,54 @@ Outcome(s, a, k) ==
 \* a component that exists only in layers the proof does not have is not a class of that degree
 Exists(a, d) == a.kind # "static" \/ a.touched.k \notin {"commit_cap", "evals", "lpath"} \/ a.touched.i \in Layers(d)
 
-Verdict(s, checks, a) ==
-  IF \E i \in 1..Len(checks) : Outcome(s, a, checks[i]) = "yes" THEN "reject"
-  ELSE IF \E i \in 1..Len(checks) : Outcome(s, a, checks[i]) = "maybe" THEN "any" ELSE "accept"
+Verdict(rer, checks, a) ==
+  IF \E i \in 1..Len(checks) : Outcome(rer, a, checks[i]) = "yes" THEN "reject"
+  ELSE IF \E i \in 1..Len(checks) : Outcome(rer, a, checks[i]) = "maybe" THEN "any" ELSE "accept"
 
-Init == /\ db \in Dbs
-        /\ adv \in {a \in Classes(db) : Exists(a, db)}
-        /\ pc = 1 /\ nacc = "running" /\ first = "" /\ maybeFirst = {}
+Init == IF IsArith
+        \* Part 3 over the lattice: one state per (configuration, proof degree)
+        THEN /\ vc \in VarCfgs /\ db \in vc.mindb..vc.maxdb
+             /\ T = <<>> /\ adv = Ad("none", {}, {}) /\ pc = 1 /\ nacc = "accept" /\ first = "" /\ maybeFirst = {}
+        ELSE /\ db \in Dbs /\ vc = VC
+             /\ T = Tables(db)
+             /\ adv \in {a \in Classes(db) : Exists(a, db)}
+             /\ pc = 1 /\ nacc = "running" /\ first = "" /\ maybeFirst = {}
 \* the native verifier walks its list in order and stops at the first failing check
 Next == /\ nacc = "running"
-        /\ LET cs == NativeChecks(db) IN
-           IF pc > Len(cs) THEN nacc' = (IF maybeFirst = {} THEN "accept" ELSE "any") /\ UNCHANGED <<pc, first, maybeFirst>>
-           ELSE LET o == Outcome(NativeSchedule(db), adv, cs[pc]) IN
-                IF o = "yes" THEN nacc' = "reject" /\ first' = cs[pc].id /\ UNCHANGED <<pc, maybeFirst>>
-                ELSE /\ pc' = pc + 1 /\ maybeFirst' = (IF o = "maybe" THEN maybeFirst \cup {cs[pc].id} ELSE maybeFirst)
+        /\ IF pc > Len(T.nc) THEN nacc' = (IF maybeFirst = {} THEN "accept" ELSE "any") /\ UNCHANGED <<pc, first, maybeFirst>>
+           ELSE LET o == Outcome(T.nrer, adv, T.nc[pc]) IN
+                IF o = "yes" THEN nacc' = "reject" /\ first' = T.nc[pc].id /\ UNCHANGED <<pc, maybeFirst>>
+                ELSE /\ pc' = pc + 1 /\ maybeFirst' = (IF o = "maybe" THEN maybeFirst \cup {T.nc[pc].id} ELSE maybeFirst)
                      /\ UNCHANGED <<nacc, first>>
-        /\ UNCHANGED <<adv, db>>
+        /\ UNCHANGED <<adv, db, vc, T>>
 Done == nacc # "running"
-CircuitVerdict == Verdict(CircuitSchedule(db), CircuitChecks(db), adv)
+CircuitVerdict == Verdict(T.crer, T.cc, adv)
 
 \* ---- obligations --------------------------------------------------------------------------
 \* verdict level: the circuit's constraint set is satisfiable exactly when the native list passes; where
 \* the native verdict depends on the query positions ("any") the circuit depends on them the same way
 Agree == Done => CircuitVerdict = nacc
-FS3 == NativeSchedule(db) = CircuitSchedule(db)
+FS3 == T.fs3
 \* check-by-check refinement: the circuit list is the native list (ids, read sets, challenges), in order
-Refines == Disabled = {} => CircuitChecks(db) = NativeChecks(db)
+Refines == Disabled = {} => T.cc = T.nc
 \* adequacy of the catalogue: every circuit check is the ONLY certain detector of some class (the consistency
 \* checks of the folding chain are always accompanied by the next link: there, a class it certainly detects)
-YesIds(a) == {NativeChecks(db)[i].id : i \in {j \in 1..Len(NativeChecks(db)) : Outcome(NativeSchedule(db), a, NativeChecks(db)[j]) = "yes"}}
+YesIds(a) == {T.nc[i].id : i \in {j \in 1..Len(T.nc) : Outcome(T.nrer, a, T.nc[j]) = "yes"}}
 Group(id) == IF id \in {"Consistency" \o Digit(l) : l \in Ls} THEN {"Consistency" \o Digit(l) : l \in Ls} \cup {"Final"}
              ELSE IF id \in VanIds /\ ~IsPlonk THEN VanIds      \* no single-index prover strategy for STARKs (hook H8)
              ELSE {id}
-Adequate == \A id \in {NativeChecks(db)[i].id : i \in 1..Len(NativeChecks(db))} :
+Adequate == (pc = 1 /\ adv.name = "none") =>
+            \A id \in {T.nc[i].id : i \in 1..Len(T.nc)} :
               \E a \in Classes(db) : Exists(a, db) /\ id \in YesIds(a) /\ YesIds(a) \subseteq Group(id) /\ Cardinality(YesIds(a)) <= 2
 \* every class except the honest proof is rejected or position dependent
 OnlyHonestAccepted == Done /\ Disabled = {} => (nacc = "accept" <=> adv.name = "none")
+
+\* Part 3: for every configuration the prover accepts and every proof degree that can be assigned at all, the
+\* circuit switches on exactly the proof's own layers, compares each Merkle path at the proof's own length and
+\* absorbs exactly what prover and native verifier absorb
+VarOK == IsArith /\ Assignable(vc, db) =>
+           /\ V1at(vc, db) /\ V3at(vc, db)
+           /\ (FinalBits(vc, vc.maxdb) <= 4 => V4at(vc, db))
 
 \* ---- the catalogue for the replay -------------------------------------------------------
 Line == [instance |-> Instance, class |-> adv.name, kind |-> adv.kind, db |-> db, layers |-> Cardinality(Layers(db)),
